@@ -250,7 +250,7 @@ func c10Check(c *eng.Case) *eng.Outcome {
 			case "apply-multiroot":
 				res, err = distiller.Apply(multi, opts)
 			case "url":
-				res, err = distiller.ApplyForURL(c10Fetch, 5*time.Second, opts)
+				res, err = distiller.ApplyForURL(c10Fetch, 5*time.Minute, opts)
 			}
 		})
 		o.Execs++
